@@ -29,7 +29,8 @@ CORE_KINDS = [
     "method-on-returned-self", "stored-list-loop", "stored-dict-loop", "method-on-list-element", "cond-alias", "recursion", "mutual-recursion", "recursive-method",
 ]
 EXT_KINDS = [
-    "self-dispatch-subclass", "self-dispatch-noinit-subclass", "self-dispatch-explicit-init-subclass", "diamond-init", "diamond-class-attr", "super-init", "super-method", "explicit-base-init", "closure-captured", "default-param", "staticmethod",
+    "self-dispatch-subclass", "self-dispatch-noinit-subclass", "self-dispatch-explicit-init-subclass",
+    "self-dispatch-chained-subclass", "diamond-init", "diamond-class-attr", "super-init", "super-method", "explicit-base-init", "closure-captured", "default-param", "staticmethod",
     "classmethod", "lambda", "class-attr-method", "diamond-method", "stored-list-append",
 ]
 ALL_KINDS = CORE_KINDS + EXT_KINDS
@@ -557,8 +558,8 @@ class Gen:
                 bases = [a, b]
         if len(bases) == 2 and (self.avoided("diamond-init") if self.diamond_init_would_differ(bases) else False):
             bases = bases[:1]
-        if len(bases) == 2 and self.self_dispatch_changes(bases, []) and self.avoided(
-                self.self_dispatch_kind(([self.init_info(b)[1] for b in bases if self.init_info(b)[1]] or [None])[0])):
+        if len(bases) == 2 and self.any_avoided(self.self_dispatch_kinds(
+                bases, [], ([self.init_info(b)[1] for b in bases if self.init_info(b)[1]] or [None])[0])):
             bases = bases[:1]
         for b in bases:
             expr, via = self.ref(tmp, b, as_base=True)
@@ -646,8 +647,7 @@ class Gen:
         if force is not None:
             names = list(force["names"])
         names.sort()
-        if bases and names and self.self_dispatch_changes(bases, names) and self.avoided(
-                self.self_dispatch_kind(self.init_info(e)[1])):
+        if bases and names and self.any_avoided(self.self_dispatch_kinds(bases, names, self.init_info(e)[1])):
             blocked = self.self_called_names(bases)
             names = [n for n in names if n not in blocked]
         init_kind = self.init_info(e)[1]
@@ -727,7 +727,7 @@ class Gen:
                 if not self.avoided(kind, via):
                     v = sc.mod.fresh("r")
                     sc.emit("%s = self.%s(%s)" % (v, n, self.arg(sc)), kind, via)
-                    self.self_calls.append({"line": sc.out[-1], "cls": cls, "name": n})
+                    self.self_calls.append({"line": sc.out[-1], "cls": cls, "name": n, "method": sc.method_name})
                     sc.last = v
                     return
         inner = self.inner_of(cls)
@@ -846,8 +846,9 @@ class Gen:
             involved.update(id(k) for k in self.mro(c))
         return {r["name"] for r in self.self_calls if id(r["cls"]) in involved}
 
-    def self_dispatch_changes(self, new_bases, new_names):
-        """would a class with these bases / own method names redirect an existing self-call?"""
+    def self_dispatch_kinds(self, new_bases, new_names, init_kind):
+        """kinds of the self-call edges that a class with these bases / own method names / running __init__ would
+        redirect to an override (empty set: it redirects nothing)"""
         class Tmp:
             pass
         t = Tmp()
@@ -857,15 +858,23 @@ class Gen:
         try:
             mro = self.mro(t)
         except ValueError:
-            return True
+            return {"self-dispatch-subclass", "self-dispatch-chained-subclass"}
+        out = set()
         for r in self.self_calls:
             if not any(r["cls"] is c for c in mro):
                 continue
             lexical = self.find_method(r["cls"], r["name"])
             runtime = [c for c in mro if r["name"] in c.methods]
             if lexical is None or not runtime or runtime[0] is not lexical[0]:
-                return True
-        return False
+                k = self.self_dispatch_kind(init_kind)
+                if k == "self-dispatch-subclass" and r["method"] != METHOD_NAMES[-1]:
+                    # a method with a larger name may (now or later) enter r's method through self: chained dispatch
+                    k = "self-dispatch-chained-subclass"
+                out.add(k)
+        return out
+
+    def any_avoided(self, kinds):
+        return any(self.avoided(k) for k in sorted(kinds))
 
     def stmt(self, sc):
         """emit one call scenario (1-4 lines) in scope sc"""
@@ -1166,6 +1175,10 @@ class Gen:
                 return False
             cls = ch.pick(cs)
             names = [n for n in self.method_names(cls) if n in METHOD_NAMES and self.find_method(cls, n)[0].methods[n]["flavour"] == "plain"]
+            # K.m(o, x) binds self as an ordinary argument; whether the receiver's class then reaches m's frame follows
+            # yet other rules (see the self-dispatch findings), so methods that call through self are not entered this way
+            names = [n for n in names if not any(r["method"] == n and r["cls"] is self.find_method(cls, n)[0]
+                                                 for r in self.self_calls)]
             if not names:
                 return False
             o = self.construct(sc, cls)
@@ -1343,7 +1356,12 @@ class Gen:
                     continue
                 key = "%s:%d>%s:%d" % (pos[id(r["line"])] + pos[id(dl)])
                 # the receiver's class is only known to the callee frame when the object was built by an __init__
-                kinds[key] = [self.self_dispatch_kind(self.init_info(s_cls)[1]), r["line"].via or "local"]
+                k = self.self_dispatch_kind(self.init_info(s_cls)[1])
+                if k == "self-dispatch-subclass" and r["method"] != METHOD_NAMES[-1]:
+                    # the method holding this self-call can itself be entered through a self-call: the receiver's
+                    # class travels one level only
+                    k = "self-dispatch-chained-subclass"
+                kinds[key] = [k, r["line"].via or "local"]
         return {"files": files, "main": "main.py", "kinds": kinds, "stepped": dict(self.stepped)}
 
 
@@ -1353,7 +1371,7 @@ CLASS_SCENARIOS = {"method", "cbclass", "recv", "objfactory", "classattr", "obj-
 OBJECT_KINDS = {
     "constructor", "constructor-inherited-init", "method", "inherited-method", "overriding-method", "self-method",
     "self-inherited-method", "self-dispatch-subclass", "self-dispatch-noinit-subclass",
-    "self-dispatch-explicit-init-subclass", "stored-class",
+    "self-dispatch-explicit-init-subclass", "self-dispatch-chained-subclass", "stored-class",
     "callback-constructor", "method-on-field", "method-on-self-field", "method-on-returned-self", "method-on-param", "method-on-returned", "method-on-list-element",
     "callback-bound-method", "stored-field", "stored-field-self", "recursive-method", "super-init", "super-method",
     "explicit-base-init", "staticmethod", "classmethod", "class-attr-method", "diamond-method", "diamond-init",
